@@ -238,5 +238,8 @@ Definition dispatch (t : tree) : tree :=
                               end))
             (read_logical {| sul_seq := seq; sul_vrl := vrl; sul_id := ident |} bs)
   | TL [TI 40; TL steps] => TL (run_program p_init b_init steps)         (* a program over the public API *)
+  | TL [TI 31; TB rows] =>                                     (* index statistics, exact *)
+      t_opt (fun s => TL [TI (is_min s); TI (is_max s); match is_spacing2 s with Some z => TL [TI z] | None => TL [] end;
+                          match is_direction s with Some b => TL [t_bool b] | None => TL [] end]) (index_stats rows)
   | _ => t_bad
   end.
